@@ -44,6 +44,10 @@ def check(tier, seed):
                     else:
                         cases.append({'line': f"sk_rt {s} bytes:{key.hex()}", 'tag': f'in-range field {vec} eta={eta}: accepted and re-serialises (checked build: no self-check panic)',
                                       'want': 'ok ' + key.hex(), 'model': v == 0 and ci == 0 and pi == 0})
+        # a whole polynomial out of range (256 bad fields), and the all-FF key
+        for tag, key in fam.whole_poly_bad_keys(s, sk):
+            assert not R.sk_fields_in_range(p, key)
+            cases.append({'line': f"sk_from {s} bytes:{key.hex()}", 'tag': 'whole polynomial out of range: ' + tag.split(' of polynomial')[0], 'want': 'err', 'model': 'all-0xFF' in tag})
         # multi-field random strings: all in range (must be accepted) / one or more out of range (must be rejected)
         for t in range(200 if tier == 'thorough' else 12):
             key = bytearray(sk)
